@@ -31,6 +31,10 @@ C19_SendTruth(o) ==
       G == {i \in P : o[i].tag \in R}
   IN /\ \A i \in Idx(o) : (o[i].k = "send" /\ o[i].res = "ok" /\ o[i].tag = "u-after") => o[i].tag \in R
      /\ \A i \in P : (\E j \in G : i < j) => i \in G
+(* C08 at the level of the Client: Establish reports success only when a session was really *)
+(* established (the first connection of these cases is answered with another state)          *)
+C08_ClientTruthful(o) ==
+  \A i \in Idx(o) : (o[i].k = "hlret" /\ o[i].res = "nil") => \E j \in 1 .. (i - 1) : o[j].k = "session"
 (* C13 at the high-level client: it closes the channels it replaces and the one it ends with, so *)
 (* that the server sees every connection of the client released                                 *)
 C13_ClientReleases(o) ==
@@ -39,7 +43,7 @@ C13_ClientReleases(o) ==
 C19_Closes(o) == \A i \in Idx(o) : o[i].k = "end" => o[i].res = "closed"
 Ops(o) == << <<"C19_Recovers", C19_Recovers(o)>>, <<"C19_NoSpin", C19_NoSpin(o)>>,
              <<"C19_SendTruth", C19_SendTruth(o)>>, <<"C19_Closes", C19_Closes(o)>>,
-             <<"C13_ClientReleases", C13_ClientReleases(o)>> >>
+             <<"C13_ClientReleases", C13_ClientReleases(o)>>, <<"C08_ClientTruthful", C08_ClientTruthful(o)>> >>
 Report(n, o) ==
   LET ops == Ops(o)
   IN \A i \in 1 .. Len(ops) : ops[i][2] \/ PrintT(<<"BAD", n, ops[i][1]>>)
